@@ -57,6 +57,7 @@ from typing import Callable
 import numpy as np
 from scipy.spatial.transform import Rotation as R
 
+from magpylib._src._verif import fault_point
 from magpylib._src.exceptions import MagpylibBadUserInput
 from magpylib._src.exceptions import MagpylibMissingInput
 from magpylib._src.input_checks import check_dimensions
@@ -289,11 +290,13 @@ def getBH_level2(
             # tile up position
             tile_pos = np.tile(obj._position[-1], (m_tile, 1))
             obj._position = np.concatenate((obj._position, tile_pos))
+            fault_point("tile.obj", obj=obj)
             # tile up orientation
             tile_orient = np.tile(obj._orientation.as_quat()[-1], (m_tile, 1))
             # FUTURE use Rotation.concatenate() requires scipy>=1.8 and python 3.8
             tile_orient = np.concatenate((obj._orientation.as_quat(), tile_orient))
             obj._orientation = R.from_quat(tile_orient)
+    fault_point("tile.done")
 
     # combine information form all sensors to generate pos_obs with-------------
     #   shape (m * concat all sens flat pixel, 3)
@@ -336,6 +339,7 @@ def getBH_level2(
     for field_func, group in field_func_groups.items():
         lg = len(group["sources"])
         gr = group["sources"]
+        fault_point("group.eval", group=gr)
         src_dict = get_src_dict(gr, n_pix, n_pp, poso)  # compute array dict for level1
         # compute field
         B_group = getBH_level1(
@@ -351,6 +355,7 @@ def getBH_level2(
         )  # reshape (2% slower for large arrays)
         for gr_ind in range(lg):  # put into dedicated positions in B
             B[group["order"][gr_ind]] = B_group[gr_ind]
+    fault_point("eval.done")
 
     # reshape output ----------------------------------------------------------------
     # rearrange B when there is at least one Collection with more than one source
@@ -367,6 +372,7 @@ def getBH_level2(
     # apply sensor rotations (after summation over collections to reduce rot.apply operations)
     for sens_ind, sens in enumerate(sensors):  # cycle through all sensors
         pix_slice = slice(pix_inds[sens_ind], pix_inds[sens_ind + 1])
+        fault_point("sensor.rot", obj=sens)
         if not unrotated_sensors[sens_ind]:  # apply operations only to rotated sensors
             # select part where rot is applied
             Bpart = B[:, :, pix_slice]
@@ -390,6 +396,7 @@ def getBH_level2(
             B[:, :, pix_slice] = np.reshape(Bpart_flat_rot, Bpart_orig_shape)
         if sens.handedness == "left":
             B[..., pix_slice, 0] *= -1
+    fault_point("pixel.agg")
 
     # rearrange sensor-pixel shape
     if pix_all_same:
